@@ -16,6 +16,12 @@ void CanSettingChanged::read(AbstractFile & is) {
     is.read(reinterpret_cast<char *>(&channel), sizeof(channel));
     is.read(reinterpret_cast<char *>(&changedType), sizeof(changedType));
     bitTimings.read(is);
+
+    /* the reserved bytes behind the bit timings: how many there are follows from objectSize (as in CanFdMessage64) */
+    if (objectSize > calculateObjectSize()) {
+        bitTimings.reservedCanFdExtFrameData.resize(objectSize - calculateObjectSize());
+        is.read(reinterpret_cast<char *>(bitTimings.reservedCanFdExtFrameData.data()), static_cast<std::streamsize>(bitTimings.reservedCanFdExtFrameData.size()));
+    }
 }
 
 void CanSettingChanged::write(AbstractFile & os) {
